@@ -35,7 +35,8 @@ def env_maps():
 
 
 def build_field_domains():
-    bps = [[a] for a in TNE] + [[a, b] for a, b in itertools.product(TNE[:5], repeat=2)] + [[a, b, c] for a, b, c in itertools.product(TNE[:3], repeat=3)]
+    # an explicitly empty list: no --buildpack at all (the builder's own order)
+    bps = [[]] + [[a] for a in TNE] + [[a, b] for a, b in itertools.product(TNE[:5], repeat=2)] + [[a, b, c] for a, b, c in itertools.product(TNE[:3], repeat=3)]
     return {"builder": TNE, "env": env_maps(), "buildpacks": bps, "app_dir": ["fixture", "ABS", "fixture/", "./fixture", "SYMLINK", "LINKDOTDOT", "LINKDOTDOT+PRE"], "preprocessor": [False, True]}
 
 
